@@ -347,3 +347,259 @@ Proof.
       replace (start + L) with i by (unfold start; lia).
       replace (start + 2 + L) with (i + 2) by (unfold start; lia). reflexivity.
 Qed.
+
+(** ** the recorded ranges: zigzag blocks (a, a+2) with ring[a-2..a+2) = x y x y, in order, each
+       starting at least two after the end of the previous one *)
+Fixpoint zzb (r : list pt) (lo hi : Z) (m : seqmap) : Prop :=
+  match m with
+  | [] => lo <= hi
+  | (_, (a, b)) :: rest => b = a + 2 /\ lo + 2 <= a /\ zpat r a /\ zzb r b hi rest
+  end.
+
+Lemma zzb_le r : forall m lo hi, zzb r lo hi m -> lo <= hi.
+Proof.
+  induction m as [| [k [a b]] m IH]; intros lo hi H; cbn [zzb] in H; [exact H |].
+  destruct H as (Hb & Ha & _ & Hr). apply IH in Hr. lia.
+Qed.
+
+Lemma zzb_mono r : forall m lo hi hi', zzb r lo hi m -> hi <= hi' -> zzb r lo hi' m.
+Proof.
+  induction m as [| [k [a b]] m IH]; intros lo hi hi' H Hh; cbn [zzb] in *; [lia |].
+  destruct H as (Hb & Ha & Hp & Hr). repeat split; try assumption. apply (IH _ _ _ Hr Hh).
+Qed.
+
+Lemma zzb_place r k a : zpat r a -> forall m lo hi, zzb r lo hi m -> hi + 2 <= a ->
+  zzb r lo (a + 2) (seq_place m k (a, a + 2)).
+Proof.
+  intro Hp. induction m as [| [k' [a' b']] m IH]; intros lo hi H Hhi; cbn [seq_place].
+  - cbn [zzb] in *. repeat split; try lia; assumption.
+  - cbn [zzb] in H. destruct H as (Hb & Ha & Hp' & Hr). pose proof (zzb_le _ _ _ _ Hr) as Hle.
+    cbn [fst]. destruct (Z.ltb_spec a a') as [Hlt | Hge]; [lia |].
+    cbn [zzb]. repeat split; try assumption. apply (IH _ _ Hr Hhi).
+Qed.
+
+Lemma zzb_insert r k a m lo hi : zpat r a -> zzb r lo hi m -> hi + 2 <= a ->
+  zzb r lo (a + 2) (seq_insert m k (a, a + 2)).
+Proof.
+  intros Hp H Hhi. unfold seq_insert. destruct (seq_has m k).
+  - apply (zzb_mono r m lo hi); [exact H | lia].
+  - apply (zzb_place r k a Hp m lo hi H Hhi).
+Qed.
+
+(** ** the loop under [le2] *)
+Lemma kmpDedupLoop_le2 r : le2 r -> forall fuel seqs visited i,
+  contig r visited i -> i - zlen visited <= zlen r -> zzb r 0 (i - zlen visited) seqs ->
+  Z.of_nat fuel > Z.max 0 (zlen r - i) ->
+  exists out, kmpDedupLoop fuel r seqs visited i = Ok out /\ zzb r 0 (zlen r) out.
+Proof.
+  intro Hle2. induction fuel as [| f IH]; intros seqs visited i Hct Hi0 Hzz Hfuel; [lia |].
+  pose proof Hct as (H0 & _ & _). pose proof (zlen_nonneg visited) as Hlv0.
+  destruct (Z.lt_ge_cases i (zlen r)) as [Hi | Hi].
+  - destruct (idx_in_range r i) as [vertex Ev]; [lia |].
+    destruct (sbk visited vertex) eqn:Hsb.
+    + destruct (detect_le2 f r seqs visited i vertex Hle2 Hct Hi Ev Hsb)
+        as [(L & HL & Hend & E) | (Hlv & Hend & Hp & key & E)]; rewrite E.
+      * apply IH; [apply contig_nil; lia | change (zlen (@nil pt)) with 0; lia | | lia].
+        change (zlen (@nil pt)) with 0. apply (zzb_mono r seqs 0 (i - zlen visited)); [exact Hzz | lia].
+      * apply IH; [apply contig_nil; lia | change (zlen (@nil pt)) with 0; lia | | lia].
+        change (zlen (@nil pt)) with 0. replace (i + 2 - 0) with (i + 2) by lia.
+        apply (zzb_insert r key i seqs 0 (i - zlen visited) Hp Hzz). lia.
+    + rewrite (loop_nodetect f r seqs visited i vertex Hi Ev Hsb).
+      apply IH; [apply contig_snoc; assumption | | | lia];
+        rewrite zlen_app; change (zlen [vertex]) with 1;
+        replace (i + 1 - (zlen visited + 1)) with (i - zlen visited) by lia; assumption.
+  - rewrite kmpDedupLoop_S. destruct (Z.ltb_spec i (zlen r)) as [Hlt | _]; [lia |].
+    exists seqs. split; [reflexivity |]. apply (zzb_mono r seqs 0 (i - zlen visited)); [exact Hzz | lia].
+Qed.
+
+(** ** RemoveSequences on zigzag blocks conserves the edges modulo cancellation *)
+Lemma cnt_app e l1 l2 : cnt e (l1 ++ l2) = cnt e l1 + cnt e l2.
+Proof. unfold cnt. rewrite filter_app, zlen_app. reflexivity. Qed.
+
+Lemma cnt_cons e f l : cnt e (f :: l) = (if edge_eqb e f then 1 else 0) + cnt e l.
+Proof. unfold cnt. cbn [filter]. destruct (edge_eqb e f); [rewrite zlen_cons; lia | lia]. Qed.
+
+Lemma edge_eqb_swap e a b : edge_eqb (swap e) (a, b) = edge_eqb e (b, a).
+Proof. destruct e as [u v]. unfold edge_eqb, swap. cbn [fst snd]. apply andb_comm. Qed.
+
+Lemma pairs_app : forall U a W, pairs (U ++ a :: W) = pairs (U ++ [a]) ++ pairs (a :: W).
+Proof.
+  induction U as [| u U IH]; intros a W.
+  - reflexivity.
+  - destruct U as [| u' U'].
+    + reflexivity.
+    + change (pairs ((u :: u' :: U') ++ a :: W)) with ((u, u') :: pairs ((u' :: U') ++ a :: W)).
+      change (pairs ((u :: u' :: U') ++ [a])) with ((u, u') :: pairs ((u' :: U') ++ [a])).
+      rewrite IH. reflexivity.
+Qed.
+
+Lemma conserves_refl E : conserves E E.
+Proof. intro e. lia. Qed.
+
+Lemma conserves_trans E1 E2 E3 : conserves E1 E2 -> conserves E2 E3 -> conserves E1 E3.
+Proof. intros H12 H23 e. specialize (H12 e). specialize (H23 e). lia. Qed.
+
+Lemma conserves_block U x y V :
+  conserves (pairs (U ++ x :: y :: x :: y :: V)) (pairs (U ++ x :: y :: V)).
+Proof.
+  intro e. rewrite (pairs_app U x (y :: x :: y :: V)), (pairs_app U x (y :: V)).
+  change (pairs (x :: y :: x :: y :: V)) with ((x, y) :: (y, x) :: pairs (x :: y :: V)).
+  rewrite !cnt_app, !cnt_cons, !edge_eqb_swap.
+  destruct (edge_eqb e (x, y)), (edge_eqb e (y, x)); lia.
+Qed.
+
+Lemma removeSequencesLoop_zz r : forall m k acc, 0 <= k -> zzb r k (zlen r) m ->
+  exists t, removeSequencesLoop r m k acc = Ok t /\
+    forall tl, conserves (pairs (acc ++ skipn (Z.to_nat k) r ++ tl)) (pairs (t ++ tl)).
+Proof.
+  induction m as [| [key [a b]] m IH]; intros k acc Hk Hzz; cbn [removeSequencesLoop zzb] in *.
+  - rewrite slice_ok by lia. cbn [bind].
+    rewrite firstn_all2 by (rewrite skipn_length; unfold zlen; lia).
+    eexists. split; [reflexivity |]. intro tl. rewrite <- app_assoc. apply conserves_refl.
+  - destruct Hzz as (Hb & Ha & (x & y & Hx1 & Hy1 & Hx2 & Hy2) & Hrest). subst b.
+    pose proof (idx_Ok_inv _ _ _ Hx1) as [_ Nx1]. pose proof (idx_Ok_inv _ _ _ Hy1) as [_ Ny1].
+    pose proof (idx_Ok_inv _ _ _ Hx2) as [_ Nx2]. pose proof (idx_Ok_inv _ _ _ Hy2) as [Hr2 Ny2].
+    rewrite slice_ok by lia. cbn [bind].
+    destruct (IH (a + 2) (acc ++ firstn (Z.to_nat (a - k)) (skipn (Z.to_nat k) r)) ltac:(lia) Hrest)
+      as (t & Et & Hcons).
+    exists t. split; [exact Et |]. intro tl.
+    refine (conserves_trans _ _ _ _ (Hcons tl)).
+    (* the block x y x y *)
+    set (P0 := firstn (Z.to_nat (a - 2 - k)) (skipn (Z.to_nat k) r)).
+    assert (Hsk : skipn (Z.to_nat k) r = P0 ++ x :: y :: x :: y :: skipn (Z.to_nat (a + 2)) r).
+    { rewrite <- (firstn_skipn (Z.to_nat (a - 2 - k)) (skipn (Z.to_nat k) r)) at 1. fold P0. f_equal.
+      rewrite skipn_skipn_add.
+      replace (Z.to_nat k + Z.to_nat (a - 2 - k))%nat with (Z.to_nat (a - 2)) by lia.
+      rewrite (skipn_nth_cons r _ x Nx1).
+      replace (S (Z.to_nat (a - 2))) with (Z.to_nat (a - 1)) by lia.
+      rewrite (skipn_nth_cons r _ y Ny1).
+      replace (S (Z.to_nat (a - 1))) with (Z.to_nat a) by lia.
+      rewrite (skipn_nth_cons r _ x Nx2).
+      replace (S (Z.to_nat a)) with (Z.to_nat (a + 1)) by lia.
+      rewrite (skipn_nth_cons r _ y Ny2).
+      replace (S (Z.to_nat (a + 1))) with (Z.to_nat (a + 2)) by lia. reflexivity. }
+    assert (Hpiece : firstn (Z.to_nat (a - k)) (skipn (Z.to_nat k) r) = P0 ++ [x; y]).
+    { replace (Z.to_nat (a - k)) with (Z.to_nat (a - 2 - k) + 2)%nat by lia.
+      rewrite firstn_add_skipn. fold P0. f_equal.
+      rewrite Hsk. rewrite skipn_app.
+      assert (HP0 : length P0 = Z.to_nat (a - 2 - k)).
+      { unfold P0. rewrite firstn_length, skipn_length. unfold zlen in Hr2. lia. }
+      rewrite HP0, skipn_all2 by lia. replace (Z.to_nat (a - 2 - k) - Z.to_nat (a - 2 - k))%nat with 0%nat by lia.
+      reflexivity. }
+    rewrite Hpiece. rewrite Hsk at 1.
+    replace (acc ++ (P0 ++ x :: y :: x :: y :: skipn (Z.to_nat (a + 2)) r) ++ tl)
+      with ((acc ++ P0) ++ x :: y :: x :: y :: (skipn (Z.to_nat (a + 2)) r ++ tl))
+      by (rewrite <- !app_assoc; reflexivity).
+    replace ((acc ++ P0 ++ [x; y]) ++ skipn (Z.to_nat (a + 2)) r ++ tl)
+      with ((acc ++ P0) ++ x :: y :: (skipn (Z.to_nat (a + 2)) r ++ tl))
+      by (rewrite <- !app_assoc; reflexivity).
+    apply conserves_block.
+Qed.
+
+(** ** C18, kmp lemma: at most two visits => total, and edges conserved modulo cancellation *)
+Theorem kmp_conserves_le2 : forall r, le2 r ->
+  exists r', kmpDeduplicate r = Ok r' /\ conserves (cedges r) (cedges r').
+Proof.
+  intros r Hle2. unfold kmpDeduplicate.
+  destruct (kmpDedupLoop_le2 r Hle2 (kmpFuel r) [] [] 0) as (out & El & Hzz).
+  - apply contig_nil. lia.
+  - change (zlen (@nil pt)) with 0. pose proof (zlen_nonneg r). lia.
+  - change (zlen (@nil pt)) with 0. cbn [zzb]. lia.
+  - unfold kmpFuel, zlen. lia.
+  - rewrite El. cbn [bind]. unfold removeSequences.
+    destruct (removeSequencesLoop_zz r out 0 [] ltac:(lia) Hzz) as (t & Et & Hcons).
+    exists t. split; [exact Et |].
+    change (Z.to_nat 0) with 0%nat in Hcons. cbn [skipn app] in Hcons.
+    assert (Hsub : subseq t r).
+    { apply (removeSequences_subseq r out t); [| exact Et].
+      apply (kmpDedupLoop_rng _ _ _ _ _ _ (Forall_nil _) El). }
+    destruct r as [| a [| b r']].
+    + inversion Hsub. subst. apply conserves_refl.
+    + assert (Ht : cedges t = []).
+      { inversion Hsub as [| x l l' H1 | x l l' H1]; subst; [inversion H1 | inversion H1]; reflexivity. }
+      rewrite Ht. apply conserves_refl.
+    + (* the first two vertices are never removed *)
+      assert (Ht : exists t', t = a :: b :: t').
+      { destruct out as [| [key [a1 b1]] rest].
+        - cbn [removeSequencesLoop] in Et. pose proof (zlen_nonneg (a :: b :: r')).
+          rewrite slice_ok in Et by lia. cbn [bind app] in Et. inversion Et.
+          change (Z.to_nat 0) with 0%nat. cbn [skipn].
+          rewrite firstn_all2 by (unfold zlen; cbn [length]; lia). eauto.
+        - cbn [zzb] in Hzz. destruct Hzz as (Hb1 & Ha1 & (x & y & _ & _ & _ & Hy2) & Hrest).
+          pose proof (idx_Ok_inv _ _ _ Hy2) as [Hr2 _].
+          cbn [removeSequencesLoop] in Et. rewrite slice_ok in Et by lia. cbn [bind app] in Et.
+          assert (Hpre : forall m k acc t0, removeSequencesLoop (a :: b :: r') m k acc = Ok t0 ->
+                     exists w, t0 = acc ++ w).
+          { induction m as [| [key' [a' b']] m IHm]; intros k acc t0 E0; cbn [removeSequencesLoop] in E0.
+            - destruct (slice _ k _) as [p |]; [| discriminate]. cbn [bind] in E0. inversion E0. eauto.
+            - destruct (slice _ k a') as [p |]; [| discriminate]. cbn [bind] in E0.
+              destruct (IHm _ _ _ E0) as [w Hw]. exists (p ++ w). rewrite Hw, app_assoc. reflexivity. }
+          destruct (Hpre _ _ _ _ Et) as [w Hw]. rewrite Hw.
+          change (Z.to_nat 0) with 0%nat. cbn [skipn].
+          replace (Z.to_nat (a1 - 0)) with (S (S (Z.to_nat (a1 - 2)))) by lia.
+          cbn [firstn app]. eauto. }
+      destruct Ht as [t' ->].
+      change (cedges (a :: b :: r')) with (pairs ((a :: b :: r') ++ [a])).
+      change (cedges (a :: b :: t')) with (pairs ((a :: b :: t') ++ [a])).
+      apply Hcons.
+Qed.
+
+Corollary kmp_total_le2 : forall r, le2 r -> exists r', kmpDeduplicate r = Ok r'.
+Proof. intros r H. destruct (kmp_conserves_le2 r H) as (r' & E & _). eauto. Qed.
+
+Print Assumptions kmp_conserves_le2.
+
+(** ** a decidable form of the hypothesis: no point occurs more than twice *)
+Definition cntp (p : pt) (l : list pt) : nat := length (filter (pt_eqb p) l).
+
+Definition le2b (r : list pt) : bool := forallb (fun p => (cntp p r <=? 2)%nat) r.
+
+Lemma cntp_app p l1 l2 : cntp p (l1 ++ l2) = (cntp p l1 + cntp p l2)%nat.
+Proof. unfold cntp. rewrite filter_app, app_length. reflexivity. Qed.
+
+Lemma cntp_cons_same p l : cntp p (p :: l) = S (cntp p l).
+Proof. unfold cntp. cbn [filter]. rewrite pt_eqb_refl. reflexivity. Qed.
+
+Lemma cntp_In p l : In p l -> (1 <= cntp p l)%nat.
+Proof.
+  induction l as [| q l IH]; intro H; [contradiction |]. destruct H as [-> | H].
+  - rewrite cntp_cons_same. lia.
+  - change (q :: l) with ([q] ++ l). rewrite cntp_app. specialize (IH H). lia.
+Qed.
+
+Lemma le2b_spec r : le2b r = true -> le2 r.
+Proof.
+  intros Hb x y z p Hxy Hyz Hx Hy Hz.
+  apply idx_Ok_inv in Hx. apply idx_Ok_inv in Hy. apply idx_Ok_inv in Hz.
+  destruct Hx as [Hxr Nx], Hy as [Hyr Ny], Hz as [Hzr Nz].
+  unfold le2b in Hb. rewrite forallb_forall in Hb.
+  specialize (Hb p (nth_error_In _ _ Nx)). apply Nat.leb_le in Hb.
+  destruct (nth_error_split r _ Nx) as (l1 & l2 & E1 & L1). subst r.
+  rewrite nth_error_app2 in Ny, Nz by lia.
+  replace (Z.to_nat y - length l1)%nat with (S (Z.to_nat y - length l1 - 1)) in Ny by lia.
+  replace (Z.to_nat z - length l1)%nat with (S (Z.to_nat z - length l1 - 1)) in Nz by lia.
+  cbn [nth_error] in Ny, Nz.
+  destruct (nth_error_split l2 _ Ny) as (l3 & l4 & E2 & L3). subst l2.
+  rewrite nth_error_app2 in Nz by lia.
+  replace (Z.to_nat z - length l1 - 1 - length l3)%nat with (S (Z.to_nat z - length l1 - 1 - length l3 - 1)) in Nz by lia.
+  cbn [nth_error] in Nz. apply nth_error_In in Nz. apply cntp_In in Nz.
+  rewrite cntp_app in Hb. change (p :: l3 ++ p :: l4) with ([p] ++ l3 ++ [p] ++ l4) in Hb.
+  rewrite !cntp_app in Hb. change (cntp p [p]) with (length (if pt_eqb p p then [p] else [])) in Hb.
+  rewrite pt_eqb_refl in Hb. cbn [length] in Hb. lia.
+Qed.
+
+Corollary kmp_conserves_le2b : forall r, le2b r = true ->
+  exists r', kmpDeduplicate r = Ok r' /\ conserves (cedges r) (cedges r').
+Proof. intros r H. apply kmp_conserves_le2. apply le2b_spec. exact H. Qed.
+
+(** non-vacuity: a zigzag with two visits of A and of B; the cancelling pair B->A, A->B disappears *)
+Example kmp_conserves_le2_example :
+  let A := (0, 0) in let B := (1, 0) in let C := (1, 1) in let D := (0, 1) in
+  le2 [D; A; B; A; B; C] /\ kmpDeduplicate [D; A; B; A; B; C] = Ok [D; A; B; C] /\
+  le2 [A; B; C; D; C; B] /\ kmpDeduplicate [A; B; C; D; C; B] = Ok [A; B; C; D; C; B].
+Proof.
+  cbv zeta. split; [apply le2b_spec; vm_compute; reflexivity |]. split; [vm_compute; reflexivity |].
+  split; [apply le2b_spec; vm_compute; reflexivity | vm_compute; reflexivity].
+Qed.
+
+Print Assumptions kmp_conserves_le2b.
